@@ -26,7 +26,9 @@ RULE = ('case = rig forest (0..4 rigs, 1..4 members, nesting 0..3, members senso
         'inside the tolerance of PoseTransform.__eq__ (1e-5 on t, 1e-2 per quaternion component) but not the identity / just '
         'outside it, next to translations of 100..1000); plus a print-precision stream (quaternions of member poses, sub-rig '
         'mounts and rig poses that are unit only to 6 / 7 / 8 decimals, to float32 or to 2^-20..2^-26: norm^2 = 1 +- 1e-8..1e-6, '
-        'with world translations up to 1e6); plus histories on ONE Rigs and ONE Trajectories object: 4..14 steps '
+        'with world translations up to 1e6); plus a numpy-dtype stream (rig geometry, sub-rig mounts and some rig / free poses '
+        'built from numpy arrays -- t float32 / float16 / float64 / int64 / int32, 1-D or (3,1), r float32 / float16 / float64 / '
+        'int64 -- with values exactly representable in the dtype, next to full-double world poses); plus histories on ONE Rigs and ONE Trajectories object: 4..14 steps '
         'of rigs_remove / rigs_remove_inplace / rigs_recover / rigs_recover_inplace interleaved with edits of the rigs through '
         'rigs[r, d] = p, rigs[r] = {..}, rigs[r][d] = p, rigs[r].update, del rigs[r][d], rigs[r].pop, del rigs[r], pop, '
         'popitem, update, |=, setdefault, clear (some raising KeyError) and refills of the trajectories; every call is judged '
@@ -565,6 +567,64 @@ def _gen_print_precision_case(rng):
     return {'rigs': rigs, 'traj': traj, 'masters': masters, 'rec_in': None, 'cls': 'print-precision:' + cls + '/m=' + mk}
 
 
+# ------------------------------------------------------------------ poses built from numpy arrays of various dtypes
+# PoseTransform(t=<ndarray>) keeps the array, dtype included (float16 / float32 calibration blobs, integer arrays as in
+# tools/kapture_import_bundler.py); r arrays become a float64 quaternion.  /repo computes compose / inverse in float64 whatever
+# the dtype (recorded 2026-10-01, numpy 2.5), so the exact model applies unchanged: the values are chosen exactly
+# representable in the dtype, the OTHER poses have general values so that results are not representable in float32.
+def _gen_dtype_case(rng):
+    import numpy as np
+
+    def vals(dt, bound):
+        if dt.startswith('int'):
+            return [float(rng.randint(-bound, bound)) for _ in range(3)]
+        if dt == 'float16':
+            return [rng.randint(-2000, 2000) / rng.choice([1, 2, 4, 16]) for _ in range(3)]
+        return [float(np.float32(rng.uniform(-bound, bound))) if rng.random() < 0.5 else _short(rng, bound, 6) for _ in range(3)]
+
+    def quat(dt):
+        if dt is None:
+            return _rand_quat(rng, False)
+        while True:
+            q = [float(rng.randint(-8, 8)) for _ in range(4)] if dt.startswith('int') else [_short(rng, 2, 5) for _ in range(4)]
+            if sum(x * x for x in q) >= 0.05:
+                return q
+    ctor = {}
+
+    def spec(p_np):
+        if rng.random() >= p_np:
+            return None
+        sp = {'t': rng.choice(['float32', 'float32', 'float32', 'float16', 'float64', 'int64', 'int32']),
+              'r': rng.choice([None, None, 'float32', 'float16', 'float64', 'int64']), 'col': rng.random() < 0.3}
+        return sp
+    p_geo = rng.choice([0.6, 1.0])
+    rigs, free = _gen_forest(rng, rng.choice([1, 1, 2, 2, 3]), rng.choice([1, 2, 3]), rng.randint(0, 1), False,
+                             lambda: _far_pose(rng, True) if rng.random() < 0.5 else _rand_pose(rng, True))
+    for r, ms in rigs:
+        for m in ms:
+            sp = spec(p_geo)
+            if sp:
+                m[1] = quat(sp['r']) + vals(sp['t'], rng.choice([5, 100, 1000]))
+                ctor[f'R|{r}|{m[0]}'] = sp
+            else:                                   # general geometry, short values (the world poses stay full doubles)
+                m[1] = _rand_pose(rng, False)
+    cls = rng.choice(['roots', 'roots', 'mixed'])
+    traj = _gen_traj(rng, rigs, free, rng.choice([1, 2, 2]), cls, True,
+                     lambda: _far_pose(rng, True) if rng.random() < 0.6 else _rand_pose(rng, True))
+    rg, parents = _forest({'rigs': rigs})
+    for t, m in traj:                               # now and then a top-level rig pose / free pose from arrays too
+        # (entries of mounted devices stay: in class mixed they are derived from a root pose that is not posed itself)
+        for e in m:
+            if e[0] not in parents and rng.random() < 0.3:
+                sp = spec(1.0)
+                e[1] = quat(sp['r']) + vals(sp['t'], rng.choice([100, 10 ** 4, 10 ** 6]))
+                ctor[f'T|{int(t)}|{e[0]}'] = sp
+    mk = rng.choice(['none', 'none', 'valid'])
+    masters = _gen_masters(rng, rigs, traj, mk)
+    return {'rigs': rigs, 'traj': traj, 'masters': masters, 'rec_in': None, 'ctor': ctor,
+            'cls': 'numpy-dtype:' + cls + '/m=' + mk}
+
+
 # ------------------------------------------------------------------ histories on ONE Rigs and ONE Trajectories object
 _EDIT_PATHS = ['inner_set'] * 4 + ['inner_del'] * 3 + ['inner_pop', 'inner_update', 'pair_set', 'rig_set', 'rig_del', 'pop',
                                                          'popitem', 'update', 'update', 'update', 'ior', 'setdefault', 'clear']
@@ -787,24 +847,46 @@ def gen_cases(rng, tier):
         cases.append(_gen_history(rng))
     for _ in range(32 if tier == 'quick' else 280):
         cases.append(_gen_print_precision_case(rng))
+    for _ in range(24 if tier == 'quick' else 200):
+        cases.append(_gen_dtype_case(rng))
     return cases
 
 
 # ------------------------------------------------------------------ running the implementation
-def _build(rigs_l, traj_l):
+def _mk_pose(p, spec=None):
+    """PoseTransform from lists (default) or, when the case asks for it (`ctor`), from numpy arrays of a given dtype for r
+    and / or t -- PoseTransform keeps a numpy t as given, dtype included.  Only when every value is exactly representable
+    in that dtype, so that the exact rational input of the oracle and of the model is the value the object holds."""
     import kapture
+    import numpy as np
+    r, t = list(p[:4]), list(p[4:])
+    if spec:
+        def arr(vals, dt, col):
+            if dt is None:
+                return vals
+            a = np.array(vals, dtype=dt)
+            if [float(x) for x in a.tolist()] != [float(x) for x in vals]:
+                return vals
+            return a.reshape((len(vals), 1)) if col else a
+        r, t = arr(r, spec.get('r'), False), arr(t, spec.get('t'), bool(spec.get('col')))
+    return kapture.PoseTransform(r=r, t=t)
+
+
+def _build(rigs_l, traj_l, ctor=None):
+    import kapture
+    ctor = ctor or {}
     rigs = kapture.Rigs()
     for r, ms in rigs_l:
         rigs[r] = {}
         for d, g in ms:
-            rigs[r, d] = kapture.PoseTransform(r=list(g[:4]), t=list(g[4:]))
+            rigs[r, d] = _mk_pose(g, ctor.get(f'R|{r}|{d}'))
     traj = kapture.Trajectories()
     for t, m in traj_l:
         # dict.setdefault is not overridden by Trajectories: this is how the code itself creates a timestamp, and the
         # only public way to hold an empty one (rigs_recover leaves such timestamps behind); `traj[t] = {}` drops it
         traj.setdefault(int(t), {})
         for d, p in m:
-            traj[int(t), d] = kapture.PoseTransform(r=list(p[:4]), t=list(p[4:]))
+            traj[int(t), d] = _mk_pose(p, ctor.get(f'T|{int(t)}|{d}'))
     assert [k for k in traj.keys()] == [int(t) for t, _ in traj_l], 'harness could not build the requested trajectories'
     return rigs, traj
 
@@ -875,7 +957,7 @@ def _apply_edit(rigs, e):
 def _run_history(case):
     """every step on the SAME Rigs object and the SAME Trajectories object"""
     import kapture
-    rigs, traj = _build(case['rigs'], case['traj'])
+    rigs, traj = _build(case['rigs'], case['traj'], case.get('ctor'))
     fns = {'remove': kapture.rigs_remove, 'remove_ip': kapture.rigs_remove_inplace,
            'recover': kapture.rigs_recover, 'recover_ip': kapture.rigs_recover_inplace}
     out = []
@@ -920,7 +1002,7 @@ def run_impl(case, ctx):
     obs = {'pure': True, 'impure': []}
 
     def run_pair(copy_fn, inplace_fn, traj_l):
-        rigs, traj = _build(case['rigs'], traj_l)
+        rigs, traj = _build(case['rigs'], traj_l, case.get('ctor'))
         r0, t0 = _dump(rigs), _dump(traj)
         exc, res = _call(lambda: copy_fn(traj, rigs))
         o_copy = {'exc': exc, 'state': _dump(res) if res is not None else None}
@@ -933,7 +1015,7 @@ def run_impl(case, ctx):
         if res is traj:
             obs['pure'] = False
             obs['impure'].append(copy_fn.__name__ + ' returned its argument')
-        rigs2, traj2 = _build(case['rigs'], traj_l)
+        rigs2, traj2 = _build(case['rigs'], traj_l, case.get('ctor'))
         exc2, _ = _call(lambda: inplace_fn(traj2, rigs2))
         o_ip = {'exc': exc2, 'state': _dump(traj2)}
         if _dump(rigs2) != r0:
@@ -1273,10 +1355,21 @@ def _shrink_history(case):
             yield c
 
 
+def _prune_ctor(c):
+    if c.get('ctor'):
+        live = {f'R|{r}|{d}' for r, ms in c['rigs'] for d, _ in ms} | {f'T|{int(t)}|{d}' for t, m in c['traj'] for d, _ in m}
+        c['ctor'] = {k: v for k, v in c['ctor'].items() if k in live}
+    return c
+
+
 def shrink(case):
     if case.get('kind') == 'history':
         yield from _shrink_history(case)
         return
+    yield from (_prune_ctor(c) for c in _shrink_single(case))
+
+
+def _shrink_single(case):
     for i in range(len(case['traj'])):
         c = copy.deepcopy(case)
         del c['traj'][i]
